@@ -655,6 +655,46 @@ func vC20Cidr(o *vC20Out, r *rand.Rand, n int) {
 
 func vC20Pick(r *rand.Rand, l []string) string { return l[r.Intn(len(l))] }
 
+// Pref64s that are related to each other: the same 128 bits cut at two or
+// three legal lengths (so the shorter ones cover the longer ones), listed in
+// any order, a prefix listed twice, the well-known prefix beside a shorter
+// prefix that covers it, and a sibling that differs from the first in the last
+// prefix bit.  Synthesis embeds into every one of them and the PTR route has
+// to find the one an address was embedded under, whichever comes first.
+func vC20RelatedPrefixes(r *rand.Rand) []string {
+	ip := vC20RandV6(r)
+	ip[8] = 0
+	switch r.Intn(5) {
+	case 0: // the family of the well-known prefix
+		for i := range ip {
+			ip[i] = 0
+		}
+		copy(ip, []byte{0, 0x64, 0xff, 0x9b})
+	case 1: // all-zero address bits behind /32: the longer members are bare
+		for i := 4; i < 16; i++ {
+			ip[i] = 0
+		}
+	}
+	var out []string
+	perm := r.Perm(len(vC20LegalBits))
+	for _, i := range perm[:2+r.Intn(2)] {
+		out = append(out, fmt.Sprintf("%s/%d", ip, vC20LegalBits[i]))
+	}
+	switch r.Intn(6) {
+	case 0: // listed twice
+		out = append(out, out[r.Intn(len(out))])
+	case 1: // a sibling: last prefix bit flipped
+		bits := vC20LegalBits[perm[0]]
+		sib := append(net.IP{}, ip...)
+		sib[bits/8-1] ^= 1
+		out = append(out, fmt.Sprintf("%s/%d", sib, bits))
+	case 2: // an unrelated or illegal one in between
+		k := r.Intn(len(out) + 1)
+		out = append(out[:k], append([]string{vC20RandPrefixString(r)}, out[k:]...)...)
+	}
+	return out
+}
+
 func vC20RandConfig(r *rand.Rand) *config.Config {
 	c := &config.Config{}
 	c.DNS64.Enabled = true
@@ -662,6 +702,8 @@ func vC20RandConfig(r *rand.Rand) *config.Config {
 	case 0: // none: default
 	case 1, 2:
 		c.DNS64.Prefixes = []string{"64:ff9b::/96"}
+	case 3, 4:
+		c.DNS64.Prefixes = vC20RelatedPrefixes(r)
 	default:
 		for i, cnt := 0, 1+r.Intn(3); i < cnt; i++ {
 			c.DNS64.Prefixes = append(c.DNS64.Prefixes, vC20RandPrefixString(r))
@@ -1154,6 +1196,43 @@ type vC20Scenario struct {
 	alKind   int // 0 QNone, 1 QErr work limit, 2 QErr attempt limit, 3 QErr other, 4 nil response, 5 response
 	aResp    *dns.Msg
 	wf       bool
+	// out: the AAAA addresses of the reply when it was synthesised
+	synthAAAA []net.IP
+	reverse   bool // built by vC20ReverseOf
+	npfx      int  // compiled prefixes
+}
+
+// forward then reverse: is one of the addresses just synthesised asked back?
+// Always under several prefixes (which one decodes it?), else one time in six.
+func (sc *vC20Scenario) wantsReverse(r *rand.Rand) bool {
+	return len(sc.synthAAAA) > 0 && (sc.npfx > 1 || r.Intn(6) == 0)
+}
+
+// the reverse question for an address the handler has just synthesised: same
+// configuration, same client, a PTR query for the address's ip6.arpa name
+// ("the matching ip6.arpa PTR query maps back to the same IPv4 address")
+func vC20ReverseOf(r *rand.Rand, sc *vC20Scenario, addr net.IP) *vC20Scenario {
+	qname := vC20ArpaName(addr.To16())
+	if r.Intn(4) == 0 {
+		qname = strings.ToUpper(qname)
+	}
+	req := new(dns.Msg)
+	req.SetQuestion(qname, dns.TypePTR)
+	req.Id = uint16(r.Intn(65536))
+	if sc.hasOPT {
+		req.SetEdns0(1232, false)
+	}
+	down := new(dns.Msg)
+	down.SetRcode(req, dns.RcodeNameError)
+	rev := &vC20Scenario{cfg: sc.cfg, req: req, hasOPT: sc.hasOPT, wireBorn: r.Intn(5) < 2, client: sc.client, down: down, wf: true, alKind: 5, reverse: true}
+	aResp := new(dns.Msg)
+	aResp.SetQuestion("x.in-addr.arpa.", dns.TypePTR)
+	aResp.Response = true
+	if r.Intn(2) == 0 {
+		aResp.Answer = append(aResp.Answer, &dns.PTR{Hdr: dns.RR_Header{Name: "x.in-addr.arpa.", Rrtype: dns.TypePTR, Class: dns.ClassINET, Ttl: vC20TTL(r)}, Ptr: "host.t."})
+	}
+	rev.aResp = aResp
+	return rev
 }
 
 func vC20Serve(o *vC20Out, r *rand.Rand, n int) {
@@ -1163,6 +1242,9 @@ func vC20Serve(o *vC20Out, r *rand.Rand, n int) {
 			continue
 		}
 		vC20Run(o, sc, r.Intn(2) == 0)
+		if sc.wantsReverse(r) {
+			vC20Run(o, vC20ReverseOf(r, sc, sc.synthAAAA[r.Intn(len(sc.synthAAAA))]), true)
+		}
 	}
 }
 
@@ -1178,6 +1260,7 @@ func vC20Gen(o *vC20Out, r *rand.Rand, emitCompile, wire bool) *vC20Scenario {
 		if d == nil {
 			return nil
 		}
+		sc.npfx = len(d.cfg.prefixes)
 		if emitCompile {
 			cfg := sc.cfg
 			o.emit("compile", fmt.Sprintf("CaseCompile %s %s", vC20Config(cfg), vC20Compiled(d.cfg)),
@@ -1187,8 +1270,12 @@ func vC20Gen(o *vC20Out, r *rand.Rand, emitCompile, wire bool) *vC20Scenario {
 
 		// ---- the query
 		qtype := dns.TypeAAAA
+		ptrShare := 6
+		if len(d.cfg.prefixes) > 1 {
+			ptrShare = 12
+		}
 		switch k := r.Intn(40); {
-		case k < 6:
+		case k < ptrShare:
 			qtype = dns.TypePTR
 		case k < 7:
 			qtype = []uint16{dns.TypeA, dns.TypeMX, dns.TypeANY, dns.TypeCNAME}[r.Intn(4)]
@@ -1301,6 +1388,7 @@ func vC20Run(o *vC20Out, sc *vC20Scenario, passNontrivial bool) {
 		}
 		c.cut.reset()
 		if vC20RunOnce(o, &c, passNontrivial) {
+			sc.synthAAAA = c.synthAAAA
 			return
 		}
 	}
@@ -1403,8 +1491,9 @@ func vC20RunOnce(o *vC20Out, sc *vC20Scenario, passNontrivial bool) bool {
 	synth := false
 	if got != nil && down != nil && got != down && qr.called > 0 {
 		for _, rr := range got.Answer {
-			if _, ok := rr.(*dns.AAAA); ok {
+			if a, ok := rr.(*dns.AAAA); ok {
 				synth = true
+				sc.synthAAAA = append(sc.synthAAAA, a.AAAA)
 			}
 		}
 	}
@@ -1444,6 +1533,9 @@ func vC20RunOnce(o *vC20Out, sc *vC20Scenario, passNontrivial bool) bool {
 	}
 	if sc.cut != nil && sc.cut.folded && k == "serve-synth" {
 		k += "-bounded"
+	}
+	if sc.reverse {
+		k += "-of-synth"
 	}
 	o.emit(k, fmt.Sprintf("CaseServe %s %s %s %s %s %s %s %s", vC20Config(cfg), qCoq, downCoq, vC20Bool(sc.work), alCoq, sc.cut.coq(), vC20Bool(sc.wf), obs),
 		desc, k != "serve-pass" || passNontrivial, "", fkey)
